@@ -95,6 +95,7 @@ WText(fm, n) == fm.head \o Rep(fm.pre, n) \o fm.core \o Rep(fm.post, n) \o fm.ta
 FamText(fm, n) == Rep(fm.pre, n) \o fm.core \o Rep(fm.post, n)
 \* families whose meaning does not depend on the depth (for n >= 1)
 Stable == {"paren", "not", "pipe", "neg", "or", "addneg", "ornot", "orparen", "orlist", "sortbynest", "mapnest", "mixnest", "filternest"}
+RefNest == {"sortbynest", "mapnest", "mixnest", "filternest"}
 FlatFam == {"or", "addneg", "ornot", "orparen", "orlist", "pipe", "index", "flatten"}
 
 \* families whose value is the repetition count (as text: head rep^n tail)
@@ -130,7 +131,9 @@ Check == idx > 0 =>
                 multi |-> { [family |-> Families[i].f,
                              pre |-> Render(Families[i].pre), core |-> Render(Families[i].core), post |-> Render(Families[i].post),
                              adm |-> Admissible(FamText(Families[i], 3), Doc),
-                             stable |-> Families[i].f \in Stable, flat |-> Families[i].f \in FlatFam] : i \in 1..Len(Families) }]
+                             stable |-> Families[i].f \in Stable, flat |-> Families[i].f \in FlatFam] :
+                            \* the reference-nesting families belong to the robustness and cost properties only
+                            i \in { k \in 1..Len(Families) : Families[k].f \notin RefNest \/ Prop \in {"C03", "C09"} } }]
       wscale == [p |-> Prop, kind |-> "scale", doc |-> Doc,
                  multi |-> { [family |-> Wrapped[i].f, head |-> Render(Wrapped[i].head), tail |-> Render(Wrapped[i].tail),
                               pre |-> Render(Wrapped[i].pre) \o <<32>>, core |-> Render(Wrapped[i].core), post |-> Render(Wrapped[i].post),
